@@ -279,6 +279,14 @@ def rule_display_fields(prog):
                             for bd in hir.pat_bindings(alt):
                                 if any(p["res"].get("k") == "Local" and p["res"]["id"] == bd["id"] for p in hir.nodes(arm["body"], "Path")):
                                     used.add(bd["name"])
+            # (the array may also be taken apart by `let .. else` / `if let`)
+            for l_ in hir.nodes(b["body"]):
+                if l_.get("k") in ("Let", "LetExpr") and l_.get("pat"):
+                    for alt in hir.pat_alternatives(l_["pat"]):
+                        if (hir.pat_variant(alt) or "").endswith("DataType::Array"):
+                            for bd in hir.pat_bindings(alt):
+                                if any(p["res"].get("k") == "Local" and p["res"]["id"] == bd["id"] for p in hir.nodes(b["body"], "Path")):
+                                    used.add(bd["name"])
             out.add("Display for DataType", "shows int / boolean / array size and element type", {"int", "boolean"} <= set(lits) and {"size", "base_type"} <= used,
                     c.loc(b["sp"]), "literals %s, array fields used %s" % (lits[:6], sorted(used)))
             # "fully resolved type": the element type is printed by its structure, never by the name of the declaration that created it
@@ -297,6 +305,16 @@ def rule_display_fields(prog):
                     hb_ = hir.local_callee_body(prog, mc_)
                     if hb_ is not None and hb_["_crate"] is c and "impl_self" in hb_ and hb_.get("impl_self") == b.get("impl_self"):
                         res_ |= set(f["name"] for f in hir.nodes(hb_["body"], "Field") if (place(f["base"]) or "").startswith("self#"))
+            # ... or inside a local function self is handed to (`PassingMode::of(self)`)
+            for cl_ in hir.nodes(root, "Call"):
+                hb_ = hir.local_callee_body(prog, cl_)
+                if hb_ is None or hb_["_crate"] is not c:
+                    continue
+                for ai_, a_ in enumerate(cl_["args"]):
+                    pl_ = place(hir.strip_ref(hir.strip(a_))) or ""
+                    if pl_.startswith("self#") and "." not in pl_ and ai_ < len(hb_["params"]) and hb_["params"][ai_].get("k") == "Binding":
+                        pre_ = hb_["params"][ai_]["name"] + "#"
+                        res_ |= set(f["name"] for f in hir.nodes(hb_["body"], "Field") if (place(f["base"]) or "").startswith(pre_))
             return res_
 
         read = self_fields(b["body"])
